@@ -5,10 +5,10 @@ package main
 import (
 	"encoding/json"
 	"fmt"
-	"reflect"
 	"go/constant"
 	"go/token"
 	"go/types"
+	"reflect"
 	"sort"
 	"strings"
 
